@@ -11,7 +11,7 @@ THEOREMS = {"C09": ["write_keeps_original", "bad_section_writes_nothing", "faile
                     "rename_source_or_destination", "backup_section_keeps_original",
                     "backup_section_then_finish_keeps_original", "backup_run_keeps_original",
                     "text_abort_keeps_whole_states", "text_abort_run", "text_abort_after_first_section",
-                    "no_patch_text_abort"], "C10": ["fault_is_fatal", "no_fault_no_fault"]}
+                    "no_patch_text_abort"], "C10": ["fault_is_fatal", "no_fault_no_fault", "unreached_fault_is_invisible_gen", "unreached_fault_is_invisible", "success_means_no_failure_hit", "success_is_the_fault_free_run", "success_tree_is_fault_free_tree", "reached_fault_trace_is_prefix"]}
 
 FAULT_CALLS = ["read", "write", "openat", "rename", "unlink", "chmod", "mkdir", "symlink", "rmdir"]
 KILL_CALLS = FAULT_CALLS + ["close", "newfstatat", "lseek", "fstat"]
